@@ -110,9 +110,17 @@ func c20Describe(slots int) func() {
 		var ep *vnet.Endpoint
 		var evs []Ev
 		for s := 0; s < slots; s++ {
-			c := mc.Choose(9, mc.Free)
+			c := mc.Choose(12, mc.Free)
 			ia := uint16(0x1100 + s)
 			switch c {
+			case 9: // frames of other service types in the middle of the wait
+				evs = append(evs, Ev{timeout / 2, "other", ia, s})
+			case 10:
+				evs = append(evs, Ev{timeout / 2, "foreign", ia, s})
+			case 11: // a steady trickle of foreign traffic up to and beyond the deadline
+				for k := 1; k <= 6; k++ {
+					evs = append(evs, Ev{mc.Duration(k) * timeout / 4, "other", ia, s})
+				}
 			case 0: // this responder stays silent
 			case 1:
 				evs = append(evs, Ev{0, "resp", ia, s})
@@ -167,9 +175,15 @@ func c20Discover(slots int, flat int) func() {
 		var ep *vnet.Endpoint
 		var evs []Ev
 		for s := 0; s < slots; s++ {
-			c := mc.Choose(8, mc.Free)
+			c := mc.Choose(10, mc.Free)
 			ia := uint16(0x1100 + s)
 			switch c {
+			case 8:
+				evs = append(evs, Ev{timeout / 2, "other", ia, s})
+			case 9:
+				for k := 1; k <= 6; k++ {
+					evs = append(evs, Ev{mc.Duration(k) * timeout / 4, "other", ia, s})
+				}
 			case 0:
 			case 1:
 				evs = append(evs, Ev{0, "resp", ia, s})
